@@ -4,22 +4,24 @@
   PARTIAL BY NATURE: the kernel and the monotonic clock are an environment with a contract (time only moves forward, a timer
   entry is popped only when its deadline has passed); promptness (how late a time-out fires) is measured, never asserted.
 
-  Model: `Model/Io.lean`. Every theorem is about `run (init co) sched` – the code of /repo HEAD with the io fixes 128a1d4
-  (owned `io_data` / handle before publication), 999f25c (`timeout_handler` raises IO_FLAG_TIMEOUT before its `co.take`; a
-  `subscribe` that armed the timer but had not yet published the coroutine sees it in its re-check, re-runs the coroutine, which
-  retries and arms a fresh timer), 8f0e7f9 (`CancelIoImpl::cancel` disarms the io timer), aafec99 (CoIo field order; not in the
-  model, it has no fd numbers) – for every schedule of callers, kernel tails, selector / timer-handler / canceller threads and
-  the environment. The behaviours of the pinned tree are kept as LABELLED WITNESSES on the model variant `initPinned`
-  (`fixFlag = fixDis = false`), each reproduced on the real pinned code by a live family that now runs as a regression scenario:
-    * `io_cancel_leaves_timer_armed_witness` (family `io_cancel_shared`) – fixed by 8f0e7f9: `io_cancel_timer_disarmed`;
-    * `io_timeout_lost_witness` (family `io_timeout_race`) – fixed by 999f25c: `io_timeout_returns` (the io twin of F6, full).
-  STILL FALSE of /repo HEAD, not modelled away (`io_stalled_timer_handler_witness`): a timeout handler that is delayed between
-  popping its entry and its `co.take` can take the coroutine of a LATER wait on the same socket (one way there is the very retry
-  of 999f25c); that wait ends with TimedOut and ITS timer stays armed and unreferenced – it fires into the next operation, or
-  into freed event data once the socket is closed. Together with the unsynchronised `RefCell` timer-handle cell and
-  `with_mut_data` on a popped entry (both panic on a worker thread, seen in the race family) this is
-  pending_fixes/io-timer-handle-race.patch (README-io.md no. 5); `io_timer_no_leak_to_next_op` therefore stays step-level plus
-  `io_disarmed_stays_disarmed`, the global form is stated in its comment.
+  Model: `Model/Io.lean`. Every theorem is about `run (init co) sched` – the REPAIRED code: /repo 960ad58 (io fixes 128a1d4 owned
+  `io_data` / handle before publication, 999f25c IO_FLAG_TIMEOUT raised by the handler before its `co.take`, 8f0e7f9 cancel disarms
+  the io timer, aafec99 CoIo field order – not in the model, it has no fd numbers) plus the two repairs that go in together with this
+  model:
+    * fix: io-timer-handle-race (`St.fixOwn`) – the timer-handle cell is a lock that carries the number of the wait it was armed for;
+      `arm_timer` holds it across `add_timer` + storing the handle; the timeout handler returns unless the cell still holds the handle
+      of ITS wait and keeps the lock through its `co.take`; every taker of the coroutine disarms under the lock;
+    * fix: io-stale-set_io (`St.regFirst`) – the io subscribes register the socket for cancel BEFORE they publish the coroutine and
+      re-check `is_canceled()` afterwards (taking their own slot if set): no `set_io` can happen after the operation is over.
+  – for every schedule of callers, kernel tails, selector / timer-handler / canceller threads and the environment.
+  The behaviours of the trees WITHOUT a fix are kept as LABELLED WITNESSES on pinned model variants, each reproduced on the real
+  unfixed code by a live family (they fail there with a stable prefix, see harness/src/scn/live_io.rs):
+    * `initPinned` (no 999f25c, no 8f0e7f9): `io_cancel_leaves_timer_armed_witness`, `io_timeout_lost_witness`;
+    * `initHead` (960ad58 without the two repairs): `io_stalled_timer_handler_witness` (finding 5 / F26 – on `init`:
+      `io_timer_no_leak_to_next_op`, now GLOBAL) and `io_stale_set_io_witness` (finding 6 / F27 – on `init`:
+      `io_cancel_ends_with_cancel`, now for all interleavings).
+  The replay picks the variant from the trace header (`timerfix=` / `regfirst=`, derived by the harness from the source it was
+  built against), so the same check runs on trees with and without the repairs.
   F2 (`AtomicDuration` truncation) is fixed in /repo: `io_timeout_not_early` is about the rounding-up conversion and holds for
   every duration, `io_timeout_truncation_f2` records what the truncating conversion did.
 -/
@@ -82,66 +84,123 @@ theorem io_timeout_truncation_f2 (cfg : Nat) :
 /-! ### whoever wins `co.take` decides -/
 
 /-- **Selector first ⇒ data, timer disarmed.** The selector's `co.take` that finds the coroutine empties the slot and leaves the
-    result untouched (no TimedOut); with no timer handle it schedules the coroutine at once, otherwise it goes on to disarm. -/
-theorem io_returns_data_if_ready_first (st st' : St) (w : Wk) (s : Sock) (c : Co) (e : Env)
+    result untouched (no TimedOut); it then goes on to disarm the timer (under the cell's lock) before it schedules. -/
+theorem io_returns_data_if_ready_first (st st' : St) (w : Wk) (s : Sock) (c : Co) (e : Env) (hO : st.fixOwn = true)
     (hpc : st.wpc w = .sTake s) (hslot : st.slot s = some c) (hs : step st (.w w) e = some st') :
-    st'.slot s = none ∧ st'.para = st.para ∧
-    (st.tslot s = none → st'.queued c = true ∧ st'.wpc w = .idle) ∧
-    (∀ t, st.tslot s = some t → st'.wpc w = .sDis s c ∧ st'.queued = st.queued) := by
-  simp only [step, hpc, wstep, hslot] at hs
-  split at hs
-  · next hn =>
-    simp only [schedule, Option.some.injEq] at hs; subst hs
-    refine ⟨by simp [upd], rfl, fun _ => ⟨by simp [upd], by simp [upd]⟩, fun t ht => by simp [hn] at ht⟩
-  · next t hn =>
-    simp only [Option.some.injEq] at hs; subst hs
-    refine ⟨by simp [upd], rfl, fun h => by simp [hn] at h, fun t' _ => ⟨by simp [upd], rfl⟩⟩
+    st'.slot s = none ∧ st'.para = st.para ∧ st'.wpc w = .sDis s c ∧ st'.queued = st.queued := by
+  simp only [step, hpc, wstep, hslot, hO, if_true, Option.some.injEq] at hs
+  subst hs
+  exact ⟨by simp [upd], rfl, by simp [upd], rfl⟩
 
-/-- … and the disarm step: the handle is taken out of the socket, its entry is no longer armed (`event_data = null`), the
-    coroutine is scheduled, still without a TimedOut result. -/
+/-- … and the disarm step (enabled only while no timeout handler holds the cell's lock): the handle is taken out of the socket, its
+    entry is no longer armed (`event_data = null`), the coroutine is scheduled, still without a TimedOut result. -/
 theorem io_selector_disarms_timer (st st' : St) (w : Wk) (s : Sock) (c : Co) (e : Env)
     (hpc : st.wpc w = .sDis s c) (hs : step st (.w w) e = some st') :
-    st'.tslot s = none ∧ st'.para = st.para ∧ st'.queued c = true ∧
+    st.tlock s = false ∧ st'.tslot s = none ∧ st'.para = st.para ∧ st'.queued c = true ∧
     (∀ t, st.tslot s = some t → ∀ s', st'.tm t ≠ .armed s') := by
-  simp only [step, hpc, wstep, schedule, disarm, Option.some.injEq] at hs
-  subst hs
-  refine ⟨by simp [upd], rfl, by simp [upd], ?_⟩
-  intro t ht s'
-  simp only [ht, disarmTm, upd, if_true]
-  cases st.tm t <;> simp [unarm]
+  simp only [step, hpc, wstep] at hs
+  split at hs
+  · contradiction
+  · next hl =>
+    simp only [schedule, disarm, Option.some.injEq] at hs
+    subst hs
+    refine ⟨by simpa using hl, by simp [upd], rfl, by simp [upd], ?_⟩
+    intro t ht s'
+    simp only [ht, disarmTm, upd, if_true]
+    cases st.tm t <;> simp [unarm]
 
-/-- **Timer first ⇒ TimedOut.** The handler's `co.take` that finds the coroutine empties the slot and resumes it with TimedOut:
-    a coroutine caller goes through `check_cancel` with the result pending, a thread caller ends the operation with TimedOut. -/
+/-- **Timer first ⇒ TimedOut.** The handler's `co.take` that finds the coroutine empties the slot, releases the cell's lock and
+    resumes the coroutine with TimedOut: a coroutine caller goes through `check_cancel` with the result pending, a thread caller
+    ends the operation with TimedOut. -/
 theorem io_timer_first_times_out (st st' : St) (w : Wk) (s : Sock) (t : Tm) (c : Co) (e : Env)
     (hpc : st.wpc w = .fTake s t) (hslot : st.slot s = some c) (hw : st.upc c = .wait s)
     (hs : step st (.w w) e = some st') :
-    st'.slot s = none ∧ st'.firedBy c = t ∧
+    st'.slot s = none ∧ st'.firedBy c = t ∧ st'.tlock s = false ∧
     (st.isCo c = true → st'.para c = true ∧ st'.upc c = .back s) ∧
     (st.isCo c = false → st'.upc c = .done .timedOut) := by
   simp only [step, hpc, wstep, hslot, resumeU, hw, Option.some.injEq] at hs
   subst hs
-  refine ⟨by simp [upd], by simp [upd], ?_, ?_⟩
+  refine ⟨by simp [upd], by simp [upd], by simp [upd], ?_, ?_⟩
   · intro hc; simp [upd, hc]
   · intro hc; simp [upd, hc]
 
-/-- **The second comer does nothing**: a `co.take` (selector, timer handler or canceller) on an empty slot changes nothing but
-    the taker's own program counter – no result is set, nobody is scheduled or resumed. -/
-theorem io_take_on_empty_slot_is_noop (st st' : St) (w : Wk) (s : Sock) (e : Env) (hslot : st.slot s = none)
+/-- **The second comer does nothing**: a `co.take` (selector, timer handler or canceller) on an empty slot sets no result and
+    schedules / resumes nobody; the taker is back between two events (the handler has released the cell's lock). -/
+theorem io_take_on_empty_slot_is_noop (st st' : St) (w : Wk) (s : Sock) (e : Env) (hO : st.fixOwn = true) (hslot : st.slot s = none)
     (hpc : st.wpc w = .sTake s ∨ (∃ t, st.wpc w = .fTake s t) ∨ st.wpc w = .xtake s)
-    (hs : step st (.w w) e = some st') : st' = { st with wpc := upd st.wpc w .idle } := by
+    (hs : step st (.w w) e = some st') :
+    st'.slot = st.slot ∧ st'.para = st.para ∧ st'.queued = st.queued ∧ st'.upc = st.upc ∧ st'.flag = st.flag ∧
+    st'.tslot = st.tslot ∧ st'.tm = st.tm ∧ st'.wpc w = .idle := by
   rcases hpc with h | ⟨t, h⟩ | h <;>
-    (simp only [step, h, wstep, xtakeStep, hslot, Option.some.injEq] at hs; exact hs.symm)
+    (simp only [step, h, wstep, hO, if_true, hslot, Option.some.injEq] at hs; subst hs; simp [upd])
 
-/-! ### a disarmed timer never resumes a later operation -/
+/-! ### a timer never ends another wait than the one it was armed for -/
 
-/-- **No leak through a disarmed timer**: popping an entry whose `event_data` was nulled is a no-op – it changes nothing but
-    the state of that entry; no slot is touched, no result is set, nobody is resumed. -/
-theorem io_timer_no_leak_to_next_op (st st' : St) (w : Wk) (t : Tm) (hpc : st.wpc w = .idle) (hd : st.tm t = .disarmed)
+/-- **No leak through a disarmed timer** (step level): popping an entry whose `event_data` was nulled is a no-op – it changes nothing
+    but the state of that entry; no slot is touched, no result is set, nobody is resumed. -/
+theorem io_disarmed_timer_pop_is_noop (st st' : St) (w : Wk) (t : Tm) (hpc : st.wpc w = .idle) (hd : st.tm t = .disarmed)
     (hs : step st (.w w) (.fire t) = some st') : st' = { st with tm := upd st.tm t .gone } := by
   simp only [step, hpc, wstep, hd] at hs
   split at hs
   · simp only [Option.some.injEq] at hs; exact hs.symm
   · contradiction
+
+/-- **A stale handler returns** (step level): a handler whose entry is no longer the one in the socket's handle cell – the wait it was
+    armed for is over, the cell is empty or holds the handle of a later wait – does nothing at all. -/
+theorem io_stale_timer_handler_is_noop (st st' : St) (w : Wk) (s : Sock) (t : Tm) (e : Env) (hpc : st.wpc w = .fChk s t)
+    (hstale : st.tslot s ≠ some t) (hs : step st (.w w) e = some st') : st' = { st with wpc := upd st.wpc w .idle } := by
+  simp only [step, hpc, wstep] at hs
+  split at hs
+  · contradiction
+  · simp only [hstale, if_false, Option.some.injEq] at hs; exact hs.symm
+
+/-- **A timer armed for one wait never ends another one, and never ends its own early – GLOBAL** (every reachable state of the
+    repaired code, every interleaving; on 960ad58 without the repair: `io_stalled_timer_handler_witness`). Whenever a timeout handler
+    is at its `co.take` for entry `t` of socket `s` and the slot holds a coroutine `c` – the only step that ever produces a TimedOut
+    result, `io_timed_out_only_by_timer_take` – then `t` was armed by `c` (`own t = c`) for the very wait `c` is in (`wno t` is the
+    number of `c`'s current wait, `wcnt c`), with `c`'s time-out (`dur c = some (tdur t)`), and that time-out has fully elapsed since
+    the wait began (`waitFrom c + tdur t ≤ now`). In particular an operation without a time-out (`dur c = none`) is never timed
+    out, and a timer of an earlier wait / an earlier operation / a cancelled operation on the same socket never resumes a later one. -/
+theorem io_timer_no_leak_to_next_op (co : Co → Bool) (sched : List (Actor × Env)) (w : Wk) (s : Sock) (t : Tm) (c : Co)
+    (hpc : (run (init co) sched).wpc w = .fTake s t) (hslot : (run (init co) sched).slot s = some c) :
+    (run (init co) sched).own t = c ∧ (run (init co) sched).wno t = (run (init co) sched).wcnt c ∧
+    (run (init co) sched).dur c = some ((run (init co) sched).tdur t) ∧
+    (run (init co) sched).waitFrom c + (run (init co) sched).tdur t ≤ (run (init co) sched).now := by
+  have h := invT_run _ sched (invT_init co)
+  generalize run (init co) sched = st at *
+  obtain ⟨hw1, hw2, _⟩ := h.i7.m1 w s t (Or.inr hpc)
+  have hu := h.i.i1.u1 (st.own t) s (by simp [hw1, uSock])
+  have hu' := h.i.i1.u1 c s (by simp [h.i.i1.ws s c hslot, uSock])
+  have hown : st.own t = c := by rw [hu] at hu'; injection hu'
+  obtain ⟨hd, hwf⟩ := h.i6.b w s t (Or.inr hpc)
+  obtain ⟨hdl, hlt⟩ := h.i3.t5 w s t hpc
+  have h2 := h.i3.t2 t hlt
+  rw [hown] at hw2 hd hwf
+  exact ⟨hown, hw2, hd, by omega⟩
+
+/-- the handler's successful `co.take` is the only step that produces a TimedOut result -/
+theorem io_timed_out_only_by_timer_take (st st' : St) (a : Actor) (e : Env) (c : Co) (hs : step st a e = some st')
+    (h0 : st.para c = false) (h1 : st'.para c = true) : ∃ w s t, a = .w w ∧ st.wpc w = .fTake s t ∧ st.slot s = some c := by
+  cases a with
+  | u c0 =>
+    simp only [step] at hs
+    generalize st.upc c0 = pc at hs
+    cases pc <;> cases e <;> simp only [ustep, resumeU, finish, disarm] at hs <;> (repeat' (split at hs)) <;>
+      first | contradiction | (simp only [Option.some.injEq] at hs; subst hs; (try simp only [] at h1); grind)
+  | k i =>
+    simp only [step] at hs
+    generalize st.kpc i = pc at hs
+    cases pc <;> simp only [kstep, resumeU, finish, disarm, schedule, xtakeStep] at hs <;> (repeat' (split at hs)) <;>
+      first | contradiction | (simp only [Option.some.injEq] at hs; subst hs; (try simp only [] at h1); grind)
+  | w i =>
+    simp only [step] at hs
+    generalize hpc : st.wpc i = pc at hs
+    cases pc <;> cases e <;> simp only [wstep, resumeU, finish, disarm, schedule, xtakeStep] at hs <;> (repeat' (split at hs)) <;>
+      first | contradiction | (simp only [Option.some.injEq] at hs; subst hs; (try simp only [] at h1); first | grind | exact ⟨i, _, _, rfl, rfl, by grind⟩)
+  | env =>
+    simp only [step] at hs
+    cases e <;> simp only [estep] at hs <;> (repeat' (split at hs)) <;>
+      first | contradiction | (simp only [Option.some.injEq] at hs; subst hs; simp [h0] at h1)
 
 /-- … and once disarmed (or popped) an entry is never armed again, whatever happens afterwards. -/
 theorem io_disarmed_stays_disarmed (co : Co → Bool) (sched more : List (Actor × Env)) (t : Tm)
@@ -197,15 +256,19 @@ theorem io_timeout_lost_witness :
 /-- **A timed operation returns** (the io twin of F6, full): when every kernel tail has finished and every selector / timer /
     canceller thread is between two events, a caller that is switched off in an operation on socket `s` with a time-out `d` in
     force is either already in a run queue, or it sits in the `co` slot and the socket's timer handle refers to an entry that is
-    still ARMED for `s`, carries exactly the caller's time-out (`tdur t = d`, deadline = arm time + `d`), and whose pop by the
-    timeout handler is enabled as soon as its deadline has passed – the time-out cannot be lost, whatever the timing of the timer
-    relative to `add_io_timer` / `co.store` / the re-check was. (On the pinned tree: `io_timeout_lost_witness`.) -/
+    still ARMED for `s` (or has just been taken out of the list by the timer thread, its handler about to run), was armed by this
+    caller for this wait, carries exactly the caller's time-out (`tdur t = d`, deadline = arm
+    time + `d`), and whose pop by the timeout handler is enabled as soon as its deadline has passed – the time-out cannot be lost,
+    whatever the timing of the timer relative to `arm_timer` / `co.store` / the re-check was. (On the pinned tree:
+    `io_timeout_lost_witness`.) -/
 theorem io_timeout_returns (co : Co → Bool) (sched : List (Actor × Env)) (c : Co) (s : Sock) (d : Nat)
     (hq : Quiescent (run (init co) sched)) (hw : (run (init co) sched).upc c = .wait s)
     (hd : (run (init co) sched).dur c = some d) :
     (run (init co) sched).queued c = true ∨
     ((run (init co) sched).slot s = some c ∧
-     ∃ t, (run (init co) sched).tslot s = some t ∧ (run (init co) sched).tm t = .armed s ∧ (run (init co) sched).tdur t = d ∧
+     ∃ t, (run (init co) sched).tslot s = some t ∧
+          ((run (init co) sched).tm t = .armed s ∨ (run (init co) sched).tm t = .popped s) ∧ (run (init co) sched).own t = c ∧
+          (run (init co) sched).tdur t = d ∧
           (run (init co) sched).deadline t = (run (init co) sched).armedAt t + d ∧
           ∀ w, (run (init co) sched).deadline t ≤ (run (init co) sched).now →
                (step (run (init co) sched) (.w w) (.fire t)).isSome = true) := by
@@ -215,56 +278,65 @@ theorem io_timeout_returns (co : Co → Bool) (sched : List (Actor × Env)) (c :
   rcases hserved with hqd | ⟨hslot, hflag, _⟩
   · exact Or.inl hqd
   · refine Or.inr ⟨hslot, ?_⟩
-    have hp : fPend (st.wpc (st.lastFire s)) s = false := by simp [hq.2 _, fPend]
-    obtain ⟨h1, h2, h3⟩ := h.i5.ts s c hslot (by simp [hd]) hflag hp
-    cases hl : st.lastArm s with
-    | none => simp [hl] at h2
+    have hl : st.tlock s = false := by
+      cases hl : st.tlock s with
+      | false => rfl
+      | true => have := h.i7.lk1 s hl; simp [hq.2 _, fCrit] at this
+    obtain ⟨h1, h2, h3⟩ := h.i5.ts s c hslot (by simp [hd]) hflag hl
+    cases hla : st.lastArm s with
+    | none => simp [hla] at h2
     | some t =>
-      have harm := h3 t hl
-      have htd := h.i6.c s c t d hslot hl hd
-      have hlt := (h.i5.ta s t hl).1
+      have hts : st.tslot s = some t := by rw [h1, hla]
+      have harm : st.tm t = .armed s ∨ st.tm t = .popped s := by
+        rcases h3 t hla with h4 | h4 | ⟨_, h4⟩
+        · exact Or.inl h4
+        · exact Or.inr h4
+        · simp [hq.2 _] at h4
+      obtain ⟨hlt, hw1, _, _⟩ := h.i7.m2 s t hts
+      have hu := h.i.i1.u1 (st.own t) s (by simp [hw1, uSock])
+      have hu' := h.i.i1.u1 c s (by simp [hw, uSock])
+      have hown : st.own t = c := by rw [hu] at hu'; injection hu'
+      have htd : st.tdur t = d := by
+        have := (h.i6.a s t hts).1
+        rw [hown, hd] at this
+        injection this with this
+        exact this.symm
       have hdl := h.i3.t2 t hlt
-      refine ⟨t, by rw [h1, hl], harm, htd, by rw [hdl, htd], ?_⟩
+      refine ⟨t, hts, harm, hown, htd, by rw [hdl, htd], ?_⟩
       intro w hdead
-      simp [step, hq.2 w, wstep, hdead, harm]
+      rcases harm with harm | harm <;> simp [step, hq.2 w, wstep, hdead, harm]
 
-/-- **Cancel disarms the io timer** (8f0e7f9; on the pinned tree: `io_cancel_leaves_timer_armed_witness`): in every reachable state
-    of the fixed code, the canceller's `co.take` that finds the coroutine takes the timer handle out of the socket and leaves its
-    entry not armed (`event_data = null`), in the same step that schedules the coroutine – for a cancel by another thread and for
-    the kernel tail's own re-check alike. By `io_timer_no_leak_to_next_op` / `io_disarmed_stays_disarmed` that entry never resumes
-    anything again. -/
-theorem io_cancel_timer_disarmed (co : Co → Bool) (sched : List (Actor × Env)) (s : Sock) (c : Co) (a : Actor) (e : Env) (st' : St)
-    (ha : (∃ w, a = .w w ∧ (run (init co) sched).wpc w = .xtake s) ∨ (∃ k, a = .k k ∧ (run (init co) sched).kpc k = .xtake s))
-    (hslot : (run (init co) sched).slot s = some c) (hs : step (run (init co) sched) a e = some st') :
-    st'.slot s = none ∧ st'.tslot s = none ∧ st'.queued c = true ∧
-    (∀ t, (run (init co) sched).tslot s = some t → ∀ s', st'.tm t ≠ .armed s') := by
-  have hf : (run (init co) sched).fixDis = true := by simpa [init, initCfg] using (cfg_run (init co) sched).2.1
-  generalize run (init co) sched = st at *
-  have key : ∀ t, st.tslot s = some t → ∀ s', disarmTm st.tm (st.tslot s) t ≠ .armed s' := by
+/-- **Cancel disarms the io timer** (8f0e7f9; on the pinned tree: `io_cancel_leaves_timer_armed_witness`): the canceller that has
+    taken the coroutine out of the slot (`x.take` → `x.dis`) takes the timer handle out of the socket – under the cell's lock – and
+    leaves its entry not armed (`event_data = null`), in the same step that schedules the coroutine. By
+    `io_disarmed_timer_pop_is_noop` / `io_disarmed_stays_disarmed` that entry never resumes anything again. -/
+theorem io_cancel_timer_disarmed (st st' : St) (w : Wk) (s : Sock) (c : Co) (e : Env)
+    (hpc : st.wpc w = .xDis s c) (hs : step st (.w w) e = some st') :
+    st.tlock s = false ∧ st'.tslot s = none ∧ st'.queued c = true ∧
+    (∀ t, st.tslot s = some t → ∀ s', st'.tm t ≠ .armed s') := by
+  simp only [step, hpc, wstep] at hs
+  split at hs
+  · contradiction
+  · next hl =>
+    simp only [schedule, disarm, Option.some.injEq] at hs
+    subst hs
+    refine ⟨by simpa using hl, by simp [upd], by simp [upd], ?_⟩
     intro t ht s'
     simp only [ht, disarmTm, upd, if_true]
     cases st.tm t <;> simp [unarm]
-  rcases ha with ⟨w, rfl, hpc⟩ | ⟨k, rfl, hpc⟩
-  · simp only [step, hpc, wstep, xtakeStep, hslot, hf, if_true, schedule, disarm, Option.some.injEq] at hs
-    subst hs
-    exact ⟨by simp [upd], by simp [upd], by simp [upd], key⟩
-  · simp only [step, hpc, kstep, xtakeStep, hslot, hf, if_true, schedule, disarm, Option.some.injEq] at hs
-    subst hs
-    exact ⟨by simp [upd], by simp [upd], by simp [upd], key⟩
 
-/-- **Open defect witness (/repo HEAD, model `init`): a delayed timeout handler takes the coroutine of a LATER wait.** The 1 ms timer
-    (entry 0) of caller 0 on socket 5 fires; the handler raises IO_FLAG_TIMEOUT and is then delayed before its `co.take`. The kernel
-    tail's re-check sees the flag and re-runs the coroutine (the retry of 999f25c): EAGAIN again, a fresh timer (entry 1), published
-    again. Now the delayed handler takes it: the operation ends with TimedOut (not early for THIS operation) – but entry 1 stays armed
-    with its handle still in the socket and nobody waiting. Caller 2 then blocks on the same socket WITHOUT a time-out (`dur 2 = none`)
-    and is timed out when entry 1 fires. Full statement that therefore does not hold on HEAD: "every armed entry belongs to the wait in
-    progress on its socket" / "an operation ends with TimedOut only through a timer armed by that operation".
-    (pending_fixes/io-timer-handle-race.patch makes the handler check, under the handle cell's lock, that its entry is still the one of
-    the wait in progress.) -/
+/-- **Defect witness (960ad58 WITHOUT fix: io-timer-handle-race, model variant `initHead`): a delayed timeout handler takes the
+    coroutine of a LATER wait.** The 1 ms timer (entry 0) of caller 0 on socket 5 fires; the handler raises IO_FLAG_TIMEOUT and is then
+    delayed before its `co.take`. The kernel tail's re-check sees the flag and re-runs the coroutine (the retry of 999f25c): EAGAIN
+    again, a fresh timer (entry 1), published again. Now the delayed handler takes it: the operation ends with TimedOut (not early for
+    THIS operation) – but entry 1 stays armed with its handle still in the socket and nobody waiting. Caller 2 then blocks on the same
+    socket WITHOUT a time-out (`dur 2 = none`) and is timed out when entry 1 fires. On the repaired code this is impossible:
+    `io_timer_no_leak_to_next_op`. (Live: family `io_timeout_race`, failures with prefix `F26:` on a tree without the fix – worker
+    died in `RefCell::borrow_mut` / `with_mut_data`, an un-timed operation got TimedOut, crash in `timeout_handler`.) -/
 theorem io_stalled_timer_handler_witness :
-    ∃ sched, (run (init fun _ => true) sched).upc 0 = .done .timedOut ∧
-             (run (init fun _ => true) sched).dur 2 = none ∧
-             (run (init fun _ => true) sched).upc 2 = .done .timedOut :=
+    ∃ sched, (run (initHead fun _ => true) sched).upc 0 = .done .timedOut ∧
+             (run (initHead fun _ => true) sched).dur 2 = none ∧
+             (run (initHead fun _ => true) sched).upc 2 = .done .timedOut :=
   ⟨[(.u 0, .start 5 true), (.u 0, .go), (.u 0, .sysAgain true true), (.u 0, .durv 1), (.u 0, .go),
     (.k 0, .go), (.k 0, .go), (.k 0, .go),
     (.env, .tick 1000000), (.w 0, .fire 0), (.w 0, .go),
@@ -280,31 +352,75 @@ theorem io_stalled_timer_handler_witness :
 
 /-! ### cancel ends the operation with Cancel -/
 
-/-- **Cancel, what is proved** (`_partial`): (1) a coroutine that is resumed with its cancel bit set ends the operation with the
-    Cancel panic and releases the socket; (2) with the bit set it does not even yield; (3) a canceller that finds the victim
-    registered (`CancelIoImpl` holds socket `s`, the coroutine is in the slot of `s`) takes it out and schedules it, and sets the
-    bit first; (4) a kernel tail that registers for cancel when the bit is already set performs the cancel itself – the
-    register-then-recheck of `subscribe` (`set_io` … `is_canceled`).
-    Full statement (`io_cancel_ends_with_cancel`): for every schedule, quiescent ∧ cancel bit of `c` set ∧ `c` blocked in a read /
-    accept / connect / recv ⇒ `c` is not suspended in the slot. MISSING: the proof over all interleavings of (3) and (4) with the
-    selector and the timer; and it needs one exclusion – a kernel tail of an EARLIER operation of `c`, delayed past a complete
-    later operation, re-registers its stale socket (`cancel.set_io` after `cancel.clear()`), so that the canceller takes the wrong
-    slot. A write / send does not register at all (`SocketWrite::subscribe` has no `set_io`): it is cancelled only when it is
-    resumed for another reason – that is how the code is written, not a finding of this check. -/
-theorem io_cancel_ends_with_cancel_partial :
+/-- **Defect witness (960ad58 WITHOUT fix: io-stale-set_io, model variant `initHead`): a stale `set_io` makes a cancel miss.**
+    Coroutine 0 blocks in a read on socket 5; its kernel tail publishes it and is delayed before `cancel.set_io`. Data arrives, the
+    read completes. The coroutine blocks in a read on socket 6 and registers socket 6. Now the delayed tail of the FIRST operation
+    registers socket 5 over it. A `cancel()` sets the bit, takes socket 5 out of the `CancelIoImpl` and finds its slot empty. Everything
+    is quiet afterwards – and the cancelled coroutine is still suspended in the slot of socket 6, not scheduled: unless data arrives it
+    never gets its Cancel. On the repaired code this is impossible: `io_cancel_ends_with_cancel`. (Live: family `io_cancel`, failures
+    with prefix `F27:` on a tree without the fix.) -/
+theorem io_stale_set_io_witness :
+    ∃ sched, (run (initHead fun _ => true) sched).upc 0 = .wait 6 ∧ (run (initHead fun _ => true) sched).slot 6 = some 0 ∧
+             (run (initHead fun _ => true) sched).opReg 0 = true ∧ (run (initHead fun _ => true) sched).cbit 0 = true ∧
+             (run (initHead fun _ => true) sched).queued 0 = false ∧
+             (run (initHead fun _ => true) sched).nk = 2 ∧ (run (initHead fun _ => true) sched).kpc 0 = .off ∧
+             (run (initHead fun _ => true) sched).kpc 1 = .off ∧
+             (run (initHead fun _ => true) sched).wpc 0 = .idle ∧ (run (initHead fun _ => true) sched).wpc 1 = .idle :=
+  ⟨[(.u 0, .start 5 true), (.u 0, .go), (.u 0, .sysAgain true true), (.u 0, .durv 0), (.u 0, .go),
+    (.k 0, .go), (.k 0, .go),
+    (.env, .arrive 5), (.w 0, .deliver 5 1), (.w 0, .go),
+    (.u 0, .resume), (.u 0, .go), (.u 0, .go), (.u 0, .go), (.u 0, .sysDone 3 false),
+    (.u 0, .start 6 true), (.u 0, .go), (.u 0, .sysAgain true true), (.u 0, .durv 0), (.u 0, .go),
+    (.k 1, .go), (.k 1, .go), (.k 1, .go), (.k 1, .go),
+    (.k 0, .go), (.k 0, .go),
+    (.w 1, .cancel 0), (.w 1, .go), (.w 1, .go)], by decide⟩
+
+/-- **A cancelled coroutine blocked in socket io is not left suspended – all interleavings** (repaired code; on 960ad58 without the
+    repair: `io_stale_set_io_witness`). In every reachable state in which every kernel tail has finished and every selector / timer /
+    canceller thread is between two events: a coroutine whose cancel bit is set and that is switched off in an operation that registers
+    for io cancel (read / recv / accept / connect: `opReg`) is in a run queue – whatever the order of `cancel()` relative to the
+    registration, the publication, the selector, the timeout handler and earlier operations of the same coroutine was. When it is run
+    it ends the operation with the Cancel panic and releases the socket (`io_cancel_resumed_is_cancel`).
+    A write / send does not register at all (`SocketWrite::subscribe` has no `set_io`): it is cancelled only when it is resumed for
+    another reason – that is how the code is written, not a finding of this check. -/
+theorem io_cancel_ends_with_cancel (co : Co → Bool) (sched : List (Actor × Env)) (c : Co) (s : Sock)
+    (hq : Quiescent (run (init co) sched)) (_hco : (run (init co) sched).isCo c = true)
+    (hb : (run (init co) sched).cbit c = true) (hw : (run (init co) sched).upc c = .wait s)
+    (hr : (run (init co) sched).opReg c = true) : (run (init co) sched).queued c = true := by
+  have hserved := io_blocked_caller_is_served co sched c s hq hw
+  have h := invT_run _ sched (invT_init co)
+  generalize run (init co) sched = st at *
+  rcases hserved with hqd | ⟨hslot, _, _⟩
+  · exact hqd
+  · rcases h.i8.ci s c hslot hr hb with h1 | h1 | ⟨h1, _⟩
+    · simp [hq.1 _, kWillC] at h1
+    · simp [hq.2 _, xtk] at h1
+    · simp [hq.2 _] at h1
+
+/-- the steps around it: (1) a queued coroutine caller that is run goes through `check_cancel`; (2) with the bit set that ends the
+    operation with the Cancel panic and releases the socket; (3) with the bit set it does not even yield; (4) a canceller that finds
+    the victim registered (`CancelIoImpl` holds socket `s`, the coroutine is in the slot of `s`, no handler holds the cell's lock)
+    sets the bit, takes it out, disarms the timer and schedules it. -/
+theorem io_cancel_resumed_is_cancel :
+    (∀ (st st' : St) (c : Co) (s : Sock), st.upc c = .wait s → st.isCo c = true → step st (.u c) .resume = some st' →
+        st.queued c = true ∧ st'.upc c = .back s ∧ st'.cbit = st.cbit) ∧
     (∀ (st st' : St) (c : Co) (s : Sock) (e : Env), st.upc c = .back s → st.cbit c = true → step st (.u c) e = some st' →
         st'.upc c = .done .canceled ∧ st'.user s = none) ∧
     (∀ (st st' : St) (c : Co) (s : Sock) (e : Env), st.upc c = .pre s → st.isCo c = true → st.cbit c = true →
         step st (.u c) e = some st' → st'.upc c = .back s ∧ st'.nk = st.nk ∧ st'.kpc = st.kpc) ∧
-    (∀ (st : St) (w : Wk) (c : Co) (s : Sock), st.fixDis = true → st.wpc w = .idle → st.cio c = some s → st.slot s = some c →
-        st.queued c = false →
-        let st' := run st [(.w w, .cancel c), (.w w, .go), (.w w, .go)]
-        st'.cbit c = true ∧ st'.slot s = none ∧ st'.queued c = true ∧ st'.dup = st.dup ∧ st'.wpc w = .idle ∧ st'.tslot s = none) ∧
-    (∀ (st : St) (k : Kt) (c : Co) (s : Sock), st.fixDis = true → st.kpc k = .reg s c → st.cbit c = true → st.slot s = some c →
-        st.queued c = false →
-        let st' := run st [(.k k, .go), (.k k, .go), (.k k, .go), (.k k, .go), (.k k, .go)]
-        st'.slot s = none ∧ st'.queued c = true ∧ st'.dup = st.dup ∧ st'.kpc k = .off ∧ st'.tslot s = none) := by
+    (∀ (st : St) (w : Wk) (c : Co) (s : Sock), st.fixOwn = true → st.tlock s = false → st.wpc w = .idle → st.cio c = some s →
+        st.slot s = some c → st.queued c = false →
+        let st' := run st [(.w w, .cancel c), (.w w, .go), (.w w, .go), (.w w, .go)]
+        st'.cbit c = true ∧ st'.slot s = none ∧ st'.queued c = true ∧ st'.dup = st.dup ∧ st'.wpc w = .idle ∧ st'.tslot s = none) := by
   refine ⟨?_, ?_, ?_, ?_⟩
+  · intro st st' c s hpc hco hs
+    simp only [step, hpc, ustep] at hs
+    split at hs
+    · next hqd =>
+      simp only [resumeU, hpc, if_true, hco, Option.some.injEq] at hs
+      subst hs
+      exact ⟨hqd, by simp [upd], rfl⟩
+    · contradiction
   · intro st st' c s e hpc hb hs
     simp only [step, hpc, ustep, hb, if_true, finish, Option.some.injEq] at hs
     subst hs
@@ -313,10 +429,8 @@ theorem io_cancel_ends_with_cancel_partial :
     simp only [step, hpc, ustep, hco, hb, Bool.and_self, if_true, Option.some.injEq] at hs
     subst hs
     simp [upd]
-  · intro st w c s hf hpc hcio hslot hq
-    simp [run, step, wstep, hpc, upd, hcio, xtakeStep, hslot, schedule, hq, hf, disarm]
-  · intro st k c s hf hpc hb hslot hq
-    simp [run, step, kstep, hpc, upd, hb, xtakeStep, hslot, schedule, hq, hf, disarm]
+  · intro st w c s hf hl hpc hcio hslot hq
+    simp [run, step, wstep, hpc, upd, hcio, hslot, schedule, hq, hf, hl, disarm]
 
 /-! ### other sockets are not disturbed -/
 
@@ -342,9 +456,10 @@ theorem io_touched_single (co : Co → Bool) (sched : List (Actor × Env)) (s : 
 /-! ### non-vacuity -/
 
 -- data first: the selector takes the coroutine, disarms the 20 ms timer (entry 0), the read returns 7 bytes; the entry then pops as a no-op
+-- (kernel tail of a timed, registering read: set_io, t.arm mark, arm_timer, t.set mark, co.store, flag re-check, cancel re-check)
 def exData : List (Actor × Env) :=
   [(.u 0, .start 5 true), (.u 0, .go), (.u 0, .sysAgain true true), (.u 0, .durv 20), (.u 0, .go),
-   (.k 0, .go), (.k 0, .go), (.k 0, .go), (.k 0, .go), (.k 0, .go), (.k 0, .go),
+   (.k 0, .go), (.k 0, .go), (.k 0, .go), (.k 0, .go), (.k 0, .go), (.k 0, .go), (.k 0, .go),
    (.env, .arrive 5), (.w 0, .deliver 5 1), (.w 0, .go), (.w 0, .go),
    (.u 0, .resume), (.u 0, .go), (.u 0, .go), (.u 0, .go), (.u 0, .sysDone 7 false)]
 example : (run (init fun _ => true) exData).upc 0 = .done (.val 7) ∧ (run (init fun _ => true) exData).tm 0 = .disarmed
@@ -352,31 +467,55 @@ example : (run (init fun _ => true) exData).upc 0 = .done (.val 7) ∧ (run (ini
 example : (run (init fun _ => true) (exData ++ [(.env, .tick 20000000), (.w 1, .fire 0)])).tm 0 = .gone
     ∧ (run (init fun _ => true) (exData ++ [(.env, .tick 20000000), (.w 1, .fire 0)])).upc 0 = .done (.val 7) := by decide
 -- the hypotheses of the step theorems are met on the way
-example : (run (init fun _ => true) (exData.take 13)).wpc 0 = .sTake 5 ∧ (run (init fun _ => true) (exData.take 13)).slot 5 = some 0
-    ∧ (run (init fun _ => true) (exData.take 13)).tslot 5 = some 0 := by decide
+example : (run (init fun _ => true) (exData.take 14)).wpc 0 = .sTake 5 ∧ (run (init fun _ => true) (exData.take 14)).slot 5 = some 0
+    ∧ (run (init fun _ => true) (exData.take 14)).tslot 5 = some 0 := by decide
 -- timer first: TimedOut no earlier than the deadline (the pop is disabled one nanosecond before)
 example : (run (init fun _ => true)
     [(.u 0, .start 5 true), (.u 0, .go), (.u 0, .sysAgain true true), (.u 0, .durv 20), (.u 0, .go),
-     (.k 0, .go), (.k 0, .go), (.k 0, .go), (.k 0, .go), (.k 0, .go), (.k 0, .go),
+     (.k 0, .go), (.k 0, .go), (.k 0, .go), (.k 0, .go), (.k 0, .go), (.k 0, .go), (.k 0, .go),
      (.env, .tick 19999999), (.w 0, .fire 0), (.w 0, .go)]).upc 0 = .wait 5 := by decide
-example : (run (init fun _ => true)
+-- … at the deadline: pop, check (the cell holds entry 0: own), fetch_or, take – the state `io_timer_no_leak_to_next_op` talks about is
+-- reached on the way (handler at its `co.take`, the coroutine in the slot), then TimedOut
+def exFire : List (Actor × Env) :=
     [(.u 0, .start 5 true), (.u 0, .go), (.u 0, .sysAgain true true), (.u 0, .durv 20), (.u 0, .go),
-     (.k 0, .go), (.k 0, .go), (.k 0, .go), (.k 0, .go), (.k 0, .go), (.k 0, .go),
-     (.env, .tick 20000000), (.w 0, .fire 0), (.w 0, .go), (.w 0, .go), (.u 0, .go), (.u 0, .go)]).upc 0 = .done .timedOut := by decide
--- the F6 window on the fixed code: the timer fires between `add_io_timer` and `co.store`; the flag makes the tail re-run the coroutine,
--- it retries, re-arms (entry 1) and waits with an armed timer – the state `io_timeout_returns` describes
+     (.k 0, .go), (.k 0, .go), (.k 0, .go), (.k 0, .go), (.k 0, .go), (.k 0, .go), (.k 0, .go),
+     (.env, .tick 20000000), (.w 0, .fire 0), (.w 0, .go), (.w 0, .go), (.w 0, .go), (.u 0, .go), (.u 0, .go)]
+example : (run (init fun _ => true) exFire).upc 0 = .done .timedOut := by decide
+example : (run (init fun _ => true) (exFire.take 16)).wpc 0 = .fTake 5 0 ∧ (run (init fun _ => true) (exFire.take 16)).slot 5 = some 0
+    ∧ (run (init fun _ => true) (exFire.take 16)).tlock 5 = true := by decide
+-- the schedule of `io_stalled_timer_handler_witness` on the REPAIRED code: the stalled handler holds the lock, so the re-run tail cannot
+-- disarm … the retry never happens before the handler is done; and a handler that comes late finds another wait's handle and returns:
+-- entry 0 pops after the selector has ended wait 1 and the caller is in wait 2 with entry 1 – stale, a no-op, entry 1 still armed
 example : (run (init fun _ => true)
     [(.u 0, .start 5 true), (.u 0, .go), (.u 0, .sysAgain true true), (.u 0, .durv 1), (.u 0, .go),
-     (.k 0, .go), (.k 0, .go),
-     (.env, .tick 1000000), (.w 0, .fire 0), (.w 0, .go), (.w 0, .go),
-     (.k 0, .go), (.k 0, .go), (.k 0, .go), (.k 0, .go),
-     (.u 0, .go), (.u 0, .go), (.u 0, .go), (.u 0, .sysAgain true true), (.u 0, .go), (.u 0, .go),
-     (.k 1, .go), (.k 1, .go), (.k 1, .go), (.k 1, .go), (.k 1, .go), (.k 1, .go)]).tm 1 = .armed 5 := by decide
--- cancel of a coroutine blocked in a read: registered, taken by the canceller, resumed, Cancel; a transfer on socket 9 is not touched
+     (.k 0, .go), (.k 0, .go), (.k 0, .go), (.k 0, .go), (.k 0, .go), (.k 0, .go), (.k 0, .go),
+     (.env, .tick 1000000), (.w 0, .fire 0),                                  -- popped, handler delayed before its check
+     (.env, .edge 5), (.w 1, .deliver 5 4), (.w 1, .go), (.w 1, .go),         -- a spurious edge: the selector ends wait 1, disarms
+     (.u 0, .resume), (.u 0, .go), (.u 0, .go), (.u 0, .go), (.u 0, .sysAgain true true), (.u 0, .go), (.u 0, .go),
+     (.k 1, .go), (.k 1, .go), (.k 1, .go), (.k 1, .go), (.k 1, .go), (.k 1, .go), (.k 1, .go),   -- wait 2, entry 1
+     (.w 0, .go)]).wpc 0 = .idle := by decide
+example : (run (init fun _ => true)
+    [(.u 0, .start 5 true), (.u 0, .go), (.u 0, .sysAgain true true), (.u 0, .durv 1), (.u 0, .go),
+     (.k 0, .go), (.k 0, .go), (.k 0, .go), (.k 0, .go), (.k 0, .go), (.k 0, .go), (.k 0, .go),
+     (.env, .tick 1000000), (.w 0, .fire 0),
+     (.env, .edge 5), (.w 1, .deliver 5 4), (.w 1, .go), (.w 1, .go),
+     (.u 0, .resume), (.u 0, .go), (.u 0, .go), (.u 0, .go), (.u 0, .sysAgain true true), (.u 0, .go), (.u 0, .go),
+     (.k 1, .go), (.k 1, .go), (.k 1, .go), (.k 1, .go), (.k 1, .go), (.k 1, .go), (.k 1, .go),
+     (.w 0, .go)]).tm 1 = .armed 5 := by decide
+-- the F6 window on the repaired code cannot open any more: the entry and its handle appear in one step (`arm_timer`)
+-- cancel of a coroutine blocked in a read: registered, taken by the canceller, timer-less disarm, resumed, Cancel
 example : (run (init fun _ => true)
     [(.u 0, .start 5 true), (.u 0, .go), (.u 0, .sysAgain true true), (.u 0, .durv 0), (.u 0, .go),
      (.k 0, .go), (.k 0, .go), (.k 0, .go), (.k 0, .go),
-     (.w 0, .cancel 0), (.w 0, .go), (.w 0, .go), (.u 0, .resume), (.u 0, .go)]).upc 0 = .done .canceled := by decide
-example : 9 ∉ touched (run (init fun _ => true) (exData.take 13)) (.w 0) .go := by decide
+     (.w 0, .cancel 0), (.w 0, .go), (.w 0, .go), (.w 0, .go), (.u 0, .resume), (.u 0, .go)]).upc 0 = .done .canceled := by decide
+-- the schedule of `io_stale_set_io_witness` has no counterpart: the tail registers before it publishes. The other race – the bit is set
+-- between the registration and the publication – is caught by the tail's own re-check (`k.chk2` → `k.own`): Cancel
+example : (run (init fun _ => true)
+    [(.u 0, .start 5 true), (.u 0, .go), (.u 0, .sysAgain true true), (.u 0, .durv 0), (.u 0, .go),
+     (.k 0, .go),
+     (.w 0, .cancel 0), (.w 0, .go), (.w 0, .go),
+     (.k 0, .go), (.k 0, .go), (.k 0, .go), (.k 0, .go), (.k 0, .go),
+     (.u 0, .resume), (.u 0, .go)]).upc 0 = .done .canceled := by decide
+example : 9 ∉ touched (run (init fun _ => true) (exData.take 14)) (.w 0) .go := by decide
 
 end MayVerif.Io
